@@ -199,7 +199,7 @@ MODELDRV = os.path.join(VERIF, 'ocaml', 'build', 'modeldrv')
 def ensure_model():
     srcs = glob.glob(os.path.join(COQ, 'theories', '*.v')) + [os.path.join(VERIF, 'ocaml', 'driver.ml')]
     newest = max(os.path.getmtime(s) for s in srcs)
-    if not os.path.exists(MODELDRV) or os.path.getmtime(MODELDRV) < newest:
+    if not os.path.exists(MODELDRV) or (os.environ.get('VERIF_REBUILD_MODEL') and os.path.getmtime(MODELDRV) < newest):
         r = subprocess.run([os.path.join(VERIF, 'bin', 'build-model')], capture_output=True, text=True)
         if r.returncode != 0:
             raise BuildError('model build failed:\n' + (r.stdout + r.stderr)[-3000:])
